@@ -255,3 +255,12 @@ def sig_K16(prop, cfg, issue):
 
 
 SIGS['K16'] = sig_K16
+
+
+def sig_K17(prop, cfg, issue):
+    return (prop == 'C02' and cfg.get('kind') == 'BHA' and cfg.get('objective') == 'bufout'
+            and issue.get('what') in ('best-not-min', 'best-increased', 'history-best-increased', 'best-pos-not-evaluated',
+                                      'light-best-not-min', 'light-record-best-not-min', 'light-best-pos-not-evaluated'))
+
+
+SIGS['K17'] = sig_K17
